@@ -176,9 +176,14 @@ class Normaliser:
         for x in a.posonlyargs + a.args + a.kwonlyargs + ([a.vararg] if a.vararg else []) + ([a.kwarg] if a.kwarg else []):
             self.binds.setdefault(x.arg, []).append(x)
         simple: Dict[int, ast.AST] = {}
+        self.tuple_assign: Dict[int, ast.Assign] = {}      # id(target Name) -> `a, b = x, y` statement
         for n in _walk_scope(fn):
             if n is fn:
                 continue
+            if isinstance(n, ast.Assign) and len(n.targets) == 1 and isinstance(n.targets[0], (ast.Tuple, ast.List)) and isinstance(n.value, (ast.Tuple, ast.List)):
+                for x in ast.walk(n.targets[0]):
+                    if isinstance(x, ast.Name):
+                        self.tuple_assign[id(x)] = n
             if isinstance(n, (ast.FunctionDef, ast.AsyncFunctionDef, ast.ClassDef)):
                 self.binds.setdefault(n.name, []).append(n)
             elif isinstance(n, ast.Assign) and len(n.targets) == 1 and isinstance(n.targets[0], ast.Name):
@@ -463,6 +468,70 @@ class Normaliser:
             return None
         return dn, d[1]
 
+    def const_set(self, name: str, depth: int = 0) -> Optional[Set[object]]:
+        """the constants a local can hold: every binding is a constant or a copy of a local for which that holds"""
+        if depth > 6 or not self.is_local(name):
+            return None
+        out: Set[object] = set()
+        bs = self.binds.get(name, [])
+        if not bs:
+            return None
+        for b in bs:
+            if not isinstance(b, (ast.Assign, ast.AnnAssign)) or b.value is None:
+                return None
+            v = b.value
+            if isinstance(v, ast.Constant):
+                out.add(v.value)
+            elif isinstance(v, ast.Name):
+                sub = self.const_set(v.id, depth + 1)
+                if sub is None:
+                    return None
+                out |= sub
+            else:
+                return None
+        return out
+
+    def table_call(self, call: ast.Call) -> Optional[ast.AST]:
+        """`TABLE[key](args)` for a dict display of callables with distinct string keys and a local name as key: the calls of the
+        entries chosen by `key == k`; the lookup as written stays as the last alternative unless the key can only be one of the keys"""
+        fn = call.func
+        if not (isinstance(fn, ast.Subscript) and isinstance(fn.slice, ast.Name) and isinstance(fn.ctx, ast.Load)) or getattr(fn, "_c19_kept", False):
+            return None
+        if any(isinstance(a, ast.Starred) for a in call.args) or any(k.arg is None for k in call.keywords):
+            return None
+        d = self.dict_value(fn.value)
+        if d is None:
+            return None
+        dn = d[0]
+        ks = [k.value for k in dn.keys]
+        if not ks or len(ks) > 12 or not all(type(k) is str for k in ks) or len(set(ks)) != len(ks):
+            return None
+        if not all(isinstance(v, ast.Lambda) or self.is_function_ref(v) or (isinstance(v, ast.Call) and self.external(v.func, d[1]) is not None) for v in dn.values):
+            return None
+        entries: List[Tuple[ast.AST, ast.AST]] = []
+        for k, v in zip(dn.keys, dn.values):
+            r = self.callable_value(v, d[1], bound_ok=True)
+            out = r.apply([copy.deepcopy(a) for a in call.args], [copy.deepcopy(kw) for kw in call.keywords]) if r is not None else None
+            if out is None:
+                if d[1] is not None or not isinstance(v, (ast.Name, ast.Attribute)):
+                    return None
+                out = ast.Call(func=copy.deepcopy(v), args=[copy.deepcopy(a) for a in call.args], keywords=[copy.deepcopy(kw) for kw in call.keywords])
+            entries.append((k, out))
+        possible = self.const_set(fn.slice.id)
+        if possible is not None and all(type(x) is str and x in ks for x in possible):
+            entries = [(k, o) for k, o in entries if k.value in possible]
+            if not entries:
+                return None
+            result: ast.AST = entries[-1][1]
+            entries = entries[:-1]
+        else:
+            kept = copy.deepcopy(call)
+            kept.func._c19_kept = True
+            result = kept
+        for k, o in reversed(entries):
+            result = ast.IfExp(test=ast.Compare(left=copy.deepcopy(fn.slice), ops=[ast.Eq()], comparators=[copy.deepcopy(k)]), body=o, orelse=result)
+        return result
+
     def is_boolean(self, e: ast.AST, depth: int = 0) -> bool:
         if depth > 6:
             return False
@@ -495,6 +564,12 @@ class Normaliser:
                     return copy.deepcopy(v)
             return copy.deepcopy(default) if default is not None else None
         ks = [k.value for k in d.keys]
+        if isinstance(key, ast.Name) and default is not None and ks and all(type(k) is str for k in ks) and len(set(ks)) == len(ks) and len(ks) <= 12:
+            # TABLE.get(name, default) over string keys: the value of the first key the name equals, else the default
+            out: ast.AST = copy.deepcopy(default)
+            for k, v in reversed(list(zip(d.keys, d.values))):
+                out = ast.IfExp(test=ast.Compare(left=copy.deepcopy(key), ops=[ast.Eq()], comparators=[copy.deepcopy(k)]), body=copy.deepcopy(v), orelse=out)
+            return out
         if len(ks) == 2 and all(type(k) is bool for k in ks) and set(ks) == {True, False} and self.is_boolean(key):
             by = {k.value: v for k, v in zip(d.keys, d.values)}
             return ast.IfExp(test=copy.deepcopy(key), body=copy.deepcopy(by[True]), orelse=copy.deepcopy(by[False]))
@@ -565,11 +640,391 @@ class Normaliser:
             e = b.value
         return self.record_fields(e)
 
+    # ---------------------------------------------------------------- helpers called where no statement can be put
+    @staticmethod
+    def _one_expression(fn: ast.AST) -> Optional[ast.AST]:
+        """the expression a function returns when its body is nothing but `return <expr>` (after the docstring)"""
+        if not isinstance(fn, ast.FunctionDef):
+            return None
+        body = list(fn.body)
+        if body and isinstance(body[0], ast.Expr) and isinstance(body[0].value, ast.Constant) and isinstance(body[0].value.value, str):
+            body = body[1:]
+        if len(body) != 1 or not isinstance(body[0], ast.Return) or body[0].value is None:
+            return None
+        if any(isinstance(x, (ast.Yield, ast.YieldFrom, ast.Await)) for x in ast.walk(fn)):
+            return None
+        return body[0].value
+
+    def helper_expr(self, fn: ast.AST, cargs, ckws) -> Optional[ast.AST]:
+        """`helper(args)` / `self.helper(args)` / `Cls.helper(args)` for a one-expression function of the anchor's module / method of
+        its class: the returned expression with the arguments in place of the parameters.  Used inside comprehensions, generator
+        expressions and conditional operands, where the flattener cannot put the statements of an inlined helper."""
+        f0 = self.f0
+        if isinstance(fn, ast.Name) and not self.is_local(fn.id):
+            r = self.repo.lookup(self.mod, fn.id)
+            if not r or r[0] != "func" or r[2] != self.mod:
+                return None
+            node = r[1]
+            expr = self._one_expression(node)
+            if expr is None or node.decorator_list:
+                return None
+            lam = self._lam(node.args, expr, r[2])
+            return lam.apply(list(cargs), list(ckws)) if lam is not None else None
+        if isinstance(fn, ast.Attribute) and isinstance(fn.value, ast.Name) and f0.cls and f0.cls in self.repo.classes:
+            recv = fn.value.id
+            via_self = recv == f0.self_name and f0.self_name is not None and len(self.binds.get(recv, [])) <= 1
+            via_cls = recv == f0.cls and not self.is_local(recv)
+            if not (via_self or via_cls):
+                return None
+            for c in self.repo.mro(f0.cls):
+                ci = self.repo.classes[c]
+                node = ci.methods.get(fn.attr)
+                if node is None:
+                    continue
+                expr = self._one_expression(node)
+                if expr is None or ci.mod != self.mod:
+                    return None
+                static = fn.attr in ci.static
+                decos = [d for d in node.decorator_list]
+                if len(decos) != (1 if static else 0):
+                    return None
+                if static:
+                    lam = self._lam(node.args, expr, ci.mod)
+                    return lam.apply(list(cargs), list(ckws)) if lam is not None else None
+                if not via_self or not node.args.args:
+                    return None
+                lam = self._lam(node.args, expr, ci.mod)
+                if lam is None:
+                    return None
+                return lam.apply([ast.Name(id=recv, ctx=ast.Load())] + list(cargs), list(ckws))
+            return None
+        return None
+
+    def unpacked_constant(self, name: str) -> Optional[ast.Constant]:
+        """the literal a module-level name is bound to by a tuple assignment (`A, B = "a", "b"`), when that is its only binding"""
+        cache = self.__dict__.setdefault("_unpacked", {})
+        if name in cache:
+            return cache[name]
+        hit: Optional[ast.AST] = None
+        count = 0
+        for st in self.f0.mod.tree.body:
+            for x in ast.walk(st):
+                if isinstance(x, (ast.FunctionDef, ast.AsyncFunctionDef, ast.ClassDef)):
+                    if x.name == name and x in self.f0.mod.tree.body:
+                        count += 1
+                    if any(isinstance(y, ast.Global) and name in y.names for y in ast.walk(x)):
+                        count += 2
+                if isinstance(x, ast.Name) and x.id == name and isinstance(x.ctx, (ast.Store, ast.Del)) and not any(
+                        isinstance(sc, (ast.FunctionDef, ast.AsyncFunctionDef, ast.ClassDef, ast.Lambda) + COMPS) and any(y is x for y in ast.walk(sc)) for sc in ast.walk(st)):
+                    count += 1
+                if isinstance(x, ast.alias) and (x.asname or x.name).split(".")[0] == name:
+                    count += 1
+            if isinstance(st, ast.Assign) and len(st.targets) == 1 and isinstance(st.targets[0], (ast.Tuple, ast.List)) and isinstance(st.value, (ast.Tuple, ast.List)):
+                v = View._paired(st.targets[0], st.value, name)
+                if v is not None:
+                    hit = v
+        out = hit if count == 1 and isinstance(hit, ast.Constant) and (hit.value is None or isinstance(hit.value, (str, int, float, bool))) else None
+        cache[name] = out
+        return out
+
+    def generator_helper(self, c: ast.AST) -> bool:
+        """a call of a generator function of the anchor's module / class with plain arguments: nothing runs until it is iterated"""
+        if not self.is_helper_call(c):
+            return False
+        fn = c.func
+        node = None
+        if isinstance(fn, ast.Name):
+            r = self.repo.lookup(self.mod, fn.id)
+            node = r[1] if r and r[0] == "func" else None
+        elif isinstance(fn, ast.Attribute):
+            for k in self.repo.mro(self.f0.cls):
+                if fn.attr in self.repo.classes[k].methods:
+                    node = self.repo.classes[k].methods[fn.attr]
+                    break
+        if not isinstance(node, ast.FunctionDef) or node.decorator_list and not all(isinstance(d, ast.Name) and d.id == "staticmethod" for d in node.decorator_list):
+            return False
+        if not any(isinstance(x, (ast.Yield, ast.YieldFrom)) for x in _walk_scope(node) if not (isinstance(x, SCOPES) and x is not node)):
+            return False
+
+        def plain(a: ast.AST) -> bool:
+            if isinstance(a, ast.Constant):
+                return True
+            if isinstance(a, ast.Name):
+                return not self.is_local(a.id) or len(self.binds.get(a.id, [])) == 1
+            if isinstance(a, ast.Call):
+                return self.generator_helper(a)
+            return False
+        return not c.keywords and all(plain(a) for a in c.args)
+
+    def stable(self, e: ast.AST) -> bool:
+        """the expression means the same wherever it is written in the function: constants, names the function never binds,
+        attribute paths on those, tuples / lists of such"""
+        if isinstance(e, ast.Constant):
+            return True
+        if isinstance(e, ast.Name):
+            return isinstance(e.ctx, ast.Load) and not self.is_local(e.id)
+        if isinstance(e, ast.Attribute):
+            return self.stable(e.value)
+        if isinstance(e, (ast.Tuple, ast.List)):
+            return not any(isinstance(x, ast.Starred) for x in e.elts) and all(self.stable(x) for x in e.elts)
+        if isinstance(e, ast.Call) and isinstance(e.func, ast.Name) and not any(isinstance(a, ast.Starred) for a in e.args) and not any(k.arg is None for k in e.keywords):
+            args_ok = all(self.stable(a) for a in e.args) and all(self.stable(k.value) for k in e.keywords)
+            if self.record_fields(e) is not None:
+                return args_ok          # a generated NamedTuple / dataclass constructor only stores its arguments
+            if e.func.id in ("tuple", "frozenset") and self._builtin(e.func, e.func.id) and len(e.args) <= 1 and not e.keywords:
+                return args_ok
+        return False
+
+    def local_constant(self, name: str) -> Optional[ast.Constant]:
+        """the literal a local is bound to when its only binding is `x = <literal>` or one component of `a, b = <literal>, <literal>`"""
+        bs = self.binds.get(name, [])
+        if len(bs) != 1:
+            return None
+        b = bs[0]
+        v: Optional[ast.AST] = None
+        if isinstance(b, (ast.Assign, ast.AnnAssign)):
+            v = b.value
+        elif isinstance(b, ast.Name):
+            st = self.tuple_assign.get(id(b))
+            if st is not None:
+                v = View._paired(st.targets[0], st.value, name)
+        if isinstance(v, ast.Constant) and (v.value is None or isinstance(v.value, (str, int, float, bool))):
+            return v
+        return None
+
+    def local_table(self, it: ast.AST) -> Optional[ast.AST]:
+        """the display a local names when it is bound once to a tuple / list display of stable elements and is only ever iterated
+        (a table written inside the function): iterating the name is iterating the display"""
+        if not (isinstance(it, ast.Name) and self.is_local(it.id)):
+            return None
+        b = self.single(it.id)
+        if b is None or isinstance(b, ast.FunctionDef) or not isinstance(b.value, (ast.Tuple, ast.List)) or not b.value.elts:
+            return None
+        if not self.stable(b.value) or not self.iterated_only(it.id):
+            return None
+        if isinstance(b.value, ast.List) and len(b.value.elts) > 12:
+            return None
+        return copy.deepcopy(b.value)
+
+    def is_helper_call(self, c: ast.AST) -> bool:
+        """a call of a function of the anchor's module / a method of its class (something the flattener analyses in place)"""
+        if not isinstance(c, ast.Call):
+            return False
+        fn = c.func
+        if isinstance(fn, ast.Name) and not self.is_local(fn.id):
+            r = self.repo.lookup(self.mod, fn.id)
+            return bool(r) and r[0] == "func"
+        if isinstance(fn, ast.Attribute) and isinstance(fn.value, ast.Name) and self.f0.cls and self.f0.cls in self.repo.classes:
+            if fn.value.id in (self.f0.self_name, self.f0.cls, "cls"):
+                return any(fn.attr in self.repo.classes[k].methods for k in self.repo.mro(self.f0.cls))
+        return False
+
+    def pure_test(self, e: ast.AST) -> bool:
+        """evaluating the expression has no effect and cannot be affected by evaluating its neighbours: names, constants, attribute
+        reads on names, comparisons / not / and / or of such"""
+        if isinstance(e, (ast.Name, ast.Constant)):
+            return True
+        if isinstance(e, ast.Attribute):
+            return self.pure_test(e.value)
+        if isinstance(e, ast.Compare):
+            return self.pure_test(e.left) and all(self.pure_test(x) for x in e.comparators)
+        if isinstance(e, ast.UnaryOp) and isinstance(e.op, ast.Not):
+            return self.pure_test(e.operand)
+        if isinstance(e, ast.BoolOp):
+            return all(self.pure_test(x) for x in e.values)
+        return False
+
+    def choice_with_helper(self, value: ast.AST) -> Optional[ast.IfExp]:
+        """the first conditional expression of a statement's value that is evaluated unconditionally, has a pure test and calls a helper
+        in one of its branches"""
+        todo = [value]
+        while todo:
+            e = todo.pop(0)
+            if isinstance(e, ast.IfExp):
+                if self.pure_test(e.test) and any(self.is_helper_call(x) for b in (e.body, e.orelse) for x in ast.walk(b)):
+                    return e
+                continue
+            if isinstance(e, (ast.Lambda,) + COMPS):
+                continue
+            if isinstance(e, ast.BoolOp):
+                todo.append(e.values[0])
+                continue
+            todo.extend(ast.iter_child_nodes(e))
+        return None
+
+    def is_function_ref(self, e: ast.AST) -> bool:
+        """a name the function never binds / an attribute path on self or on such a name (a function or bound method, not a call)"""
+        if isinstance(e, ast.Name):
+            return isinstance(e.ctx, ast.Load) and not self.is_local(e.id) and e.id not in ("None", "True", "False")
+        if isinstance(e, ast.Attribute):
+            root = e
+            while isinstance(root, ast.Attribute):
+                root = root.value
+            return isinstance(root, ast.Name) and (not self.is_local(root.id) or (root.id == self.f0.self_name and len(self.binds.get(root.id, [])) <= 1))
+        if isinstance(e, ast.Lambda):
+            return True
+        if isinstance(e, ast.IfExp):
+            return self.is_function_ref(e.body) and self.is_function_ref(e.orelse)
+        return False
+
     # ---------------------------------------------------------------- the rewriting pass
+    def _accumulations(self) -> bool:
+        """`xs = xs + [e]` / `xs = [*xs, e]` on a local list that nothing else can observe in between (every other use of xs comes after
+        the last such statement and outside the loops that contain one) is the in-place extension `xs += [e]`: the accumulation forms
+        `reduce(lambda acc, x: acc + [f(x)], it, [])` and `acc = acc + [..]` denote the same list as loop + append"""
+        fn = self.fn
+        order: Dict[int, int] = {}
+        loops_of: Dict[int, List[ast.AST]] = {}
+        owner: Dict[int, ast.stmt] = {}
+
+        def walk(stmts: List[ast.stmt], loops: List[ast.AST]) -> None:
+            for st in stmts:
+                order[id(st)] = len(order)
+                loops_of[id(st)] = loops
+                if isinstance(st, (ast.FunctionDef, ast.AsyncFunctionDef, ast.ClassDef)):
+                    for x in ast.walk(st):
+                        owner.setdefault(id(x), st)
+                    continue
+                inner = loops + [st] if isinstance(st, (ast.For, ast.While)) else loops
+                blocks = [getattr(st, fld) for fld in ("body", "orelse", "finalbody") if isinstance(getattr(st, fld, None), list)]
+                blocks += [h.body for h in getattr(st, "handlers", []) or []]
+                nested = {id(x) for b in blocks for s_ in b if isinstance(s_, ast.AST) for x in ast.walk(s_)}
+                for x in ast.walk(st):
+                    if id(x) not in nested:
+                        owner.setdefault(id(x), st)
+                for b in blocks:
+                    if b and isinstance(b[0], ast.stmt):
+                        walk(b, inner)
+        walk(fn.body, [])
+
+        def fresh_list(v: ast.AST) -> bool:
+            return (isinstance(v, ast.List) and not any(isinstance(x, ast.Starred) for x in v.elts)) or \
+                (isinstance(v, ast.Call) and isinstance(v.func, ast.Name) and v.func.id == "list" and not v.args and not v.keywords and not self.is_local("list"))
+
+        def extension(name: str, v: ast.AST) -> Optional[ast.AST]:
+            if isinstance(v, ast.BinOp) and isinstance(v.op, ast.Add) and isinstance(v.left, ast.Name) and v.left.id == name \
+                    and isinstance(v.right, (ast.List, ast.ListComp)) and name not in _names(v.right):
+                return v.right
+            if isinstance(v, ast.List) and len(v.elts) >= 2 and isinstance(v.elts[0], ast.Starred) and isinstance(v.elts[0].value, ast.Name) \
+                    and v.elts[0].value.id == name and not any(isinstance(x, ast.Starred) for x in v.elts[1:]) and not any(name in _names(x) for x in v.elts[1:]):
+                return ast.List(elts=list(v.elts[1:]), ctx=ast.Load())
+            return None
+
+        did = False
+        for name, bs in list(self.binds.items()):
+            if len(bs) < 2 or not all(isinstance(b, (ast.Assign, ast.AnnAssign)) and b.value is not None for b in bs):
+                continue
+            if any(id(b) not in order for b in bs):
+                continue
+            accs = [(b, extension(name, b.value)) for b in bs]
+            accs = [(b, r) for b, r in accs if r is not None]
+            inits = [b for b in bs if fresh_list(b.value)]
+            if not accs or not inits or len(accs) + len(inits) != len(bs):
+                continue
+            last = max(order[id(b)] for b, _r in accs)
+            acc_ids = {id(b) for b, _r in accs}
+            acc_loops = {id(l) for b, _r in accs for l in loops_of[id(b)]}
+            ok = True
+            for x in ast.walk(fn):
+                if isinstance(x, ast.Name) and x.id == name and isinstance(x.ctx, ast.Load):
+                    st = owner.get(id(x))
+                    if st is None or id(st) in acc_ids:
+                        ok = ok and st is not None
+                        continue
+                    if id(st) not in order or order[id(st)] <= last or any(id(l) in acc_loops for l in loops_of[id(st)]) or id(st) in acc_loops:
+                        ok = False
+            if not ok:
+                continue
+            for b, right in accs:
+                new = ast.copy_location(ast.AugAssign(target=ast.Name(id=name, ctx=ast.Store()), op=ast.Add(), value=right), b)
+                self._replace_stmt(b, new)
+                did = True
+        if did:
+            ast.fix_missing_locations(fn)
+        return did
+
+    def _comprehension_variables_apart(self) -> bool:
+        """a comprehension has its own scope: a variable of it that shares its name with another binding of the function
+        (`status = next((status for status, m in T if ..), d)`) is renamed, so that nothing confuses the two"""
+        did = False
+        for comp in [n for n in ast.walk(self.fn) if isinstance(n, COMPS)]:
+            own: Set[str] = set()
+            for g in comp.generators:
+                own |= _names(g.target, ast.Store)
+            clash = {x for x in own if len(self.binds.get(x, [])) > 1 or self.loads_outside(comp, x)}
+            if not clash:
+                continue
+            inner_rebinds = set()
+            parts = ([comp.key, comp.value] if isinstance(comp, ast.DictComp) else [comp.elt]) + [c for g in comp.generators for c in g.ifs] + \
+                [g.iter for g in comp.generators[1:]]
+            for part in parts:
+                for x in ast.walk(part):
+                    if isinstance(x, COMPS + (ast.Lambda,)):
+                        inner_rebinds |= _bound_inside(x)
+                    if isinstance(x, ast.NamedExpr):
+                        inner_rebinds |= _names(x.target)
+            clash -= inner_rebinds
+            if not clash:
+                continue
+            k = next(_fresh)
+            ren = _Rename({x: f"{x}__n{k}" for x in clash})
+            for g in comp.generators:
+                g.target = ren.visit(g.target)
+                g.ifs = [ren.visit(c) for c in g.ifs]
+            for g in comp.generators[1:]:
+                g.iter = ren.visit(g.iter)
+            if isinstance(comp, ast.DictComp):
+                comp.key, comp.value = ren.visit(comp.key), ren.visit(comp.value)
+            else:
+                comp.elt = ren.visit(comp.elt)
+            did = True
+            self._scan()
+        return did
+
+    def _repair_nested_parameters(self) -> bool:
+        """work-around for the inliner: when a helper is put in place its locals are renamed `x__i<n>`, inside nested functions too, but
+        the PARAMETER of a nested function / lambda that happens to share its name with a local of the helper keeps its name while
+        the uses in its body are renamed.  The parameter is given the name its body uses."""
+        did = False
+        for n in ast.walk(self.fn):
+            if n is self.fn or not isinstance(n, (ast.FunctionDef, ast.Lambda)):
+                continue
+            a = n.args
+            body_nodes = n.body if isinstance(n.body, list) else [n.body]
+            used = {x.id for b in body_nodes for x in ast.walk(b) if isinstance(x, ast.Name)}
+            for arg in a.posonlyargs + a.args + a.kwonlyargs:
+                if arg.arg in used:
+                    continue
+                cands = {u for u in used if re.fullmatch(re.escape(arg.arg) + r"(__i\d+)+", u)}
+                if len(cands) == 1:
+                    arg.arg = cands.pop()
+                    did = True
+        return did
+
+    def loads_outside(self, comp: ast.AST, name: str) -> bool:
+        inside = {id(x) for x in ast.walk(comp)}
+        return any(isinstance(x, ast.Name) and x.id == name and id(x) not in inside for x in ast.walk(self.fn))
+
+    def _replace_stmt(self, old: ast.stmt, new: ast.stmt) -> None:
+        for n in ast.walk(self.fn):
+            for fld in ("body", "orelse", "finalbody"):
+                b = getattr(n, fld, None)
+                if isinstance(b, list):
+                    for i, s_ in enumerate(b):
+                        if s_ is old:
+                            b[i] = new
+                            return
+
     def run(self) -> bool:
-        any_change = False
+        any_change = self._repair_nested_parameters()
         for _ in range(12):
             self._scan()
+            if self._accumulations():
+                any_change = True
+                self._scan()
+            if self._comprehension_variables_apart():
+                any_change = True
+                self._scan()
             self.changed = False
             self.drop: Set[int] = set()
             self.fused_lists: Set[str] = set()
@@ -618,6 +1073,7 @@ class _Drop(ast.NodeTransformer):
 class _Pass(ast.NodeTransformer):
     def __init__(self, N: Normaliser):
         self.N = N
+        self.in_expr_only = 0       # inside a comprehension / generator expression: no statement can be put here
 
     # nested scopes are left alone: they are looked at when (and where) they are applied
     def visit_FunctionDef(self, n):
@@ -658,6 +1114,15 @@ class _Pass(ast.NodeTransformer):
                 if cond is not None:
                     return self._done(ast.GeneratorExp(elt=ast.Name(id=v, ctx=ast.Load()), generators=[
                         ast.comprehension(target=ast.Name(id=v, ctx=ast.Store()), iter=n.args[1], ifs=[cond], is_async=0)]), n)
+        # list(g) with g a generator expression that is bound once and consumed only here
+        if plain and not n.keywords and isinstance(fn, ast.Name) and fn.id in ("list", "set", "tuple", "sorted", "any", "all", "next") and N._builtin(fn, fn.id) \
+                and len(n.args) == (2 if fn.id == "next" else 1) and isinstance(n.args[0], ast.Name) and N.is_local(n.args[0].id) and N.loads.get(n.args[0].id, 0) == 1:
+            b = N.single(n.args[0].id)
+            if b is not None and not isinstance(b, ast.FunctionDef) and id(b) not in N.drop and isinstance(b.value, ast.GeneratorExp) \
+                    and all(isinstance(x, (ast.Name, ast.Constant)) or N.generator_helper(x) or N.stable(x) for x in [b.value.generators[0].iter]):
+                N.drop.add(id(b))
+                n.args[0] = _relocate(copy.deepcopy(b.value), n.args[0])
+                N.changed = True
         # list(<generator expression>) is the list comprehension
         if plain and not n.keywords and isinstance(fn, ast.Name) and fn.id in ("list", "set") and N._builtin(fn, fn.id) and len(n.args) == 1 \
                 and isinstance(n.args[0], ast.GeneratorExp):
@@ -665,6 +1130,16 @@ class _Pass(ast.NodeTransformer):
             new_c = (ast.ListComp if fn.id == "list" else ast.SetComp)(elt=ge.elt, generators=ge.generators)
             self.N.changed = True
             return ast.copy_location(new_c, n)
+        # TABLE[key](args): the entries' calls chosen by key
+        if isinstance(fn, ast.Subscript):
+            new = N.table_call(n)
+            if new is not None:
+                return self._done(new, n)
+        # a one-expression helper called where the flattener cannot inline statements
+        if plain and self.in_expr_only:
+            new = N.helper_expr(fn, list(n.args), list(n.keywords))
+            if new is not None:
+                return self._done(new, n)
         # a callable value applied
         if isinstance(fn, (ast.Name, ast.Lambda, ast.Call, ast.IfExp)) or (isinstance(fn, ast.Attribute) and isinstance(fn.value, ast.Name)):
             r = N.callable_value(fn, None, bound_ok=not isinstance(fn, ast.Attribute))
@@ -774,8 +1249,95 @@ class _Pass(ast.NodeTransformer):
         cp = copy.deepcopy
         return ren.visit(cp(g.target)), cp(g.iter), [ren.visit(cp(x)) for x in g.ifs], ren.visit(cp(c.elt))
 
+    def _hoist_choice(self, st: ast.stmt) -> Optional[ast.stmt]:
+        """S[.. (A if c else B) ..]  ->  if c: S[.. A ..] else: S[.. B ..]  when c is pure and a branch calls a helper: the helper can
+        then be analysed in place on its own branch"""
+        value = getattr(st, "value", None)
+        if value is None:
+            return None
+        # everything evaluated before the conditional expression must be insensitive to the test being evaluated first: the test is pure
+        ie = self.N.choice_with_helper(value)
+        if ie is None:
+            return None
+
+        ie._hoist_me = True
+
+        def variant(take_body: bool) -> ast.stmt:
+            class R(ast.NodeTransformer):
+                def visit_IfExp(self_, x):
+                    if getattr(x, "_hoist_me", False):
+                        return x.body if take_body else x.orelse
+                    return self_.generic_visit(x)
+            return R().visit(copy.deepcopy(st))
+        a, b = variant(True), variant(False)
+        del ie._hoist_me
+        self.N.changed = True
+        out = ast.If(test=copy.deepcopy(ie.test), body=[a], orelse=[b])
+        return ast.fix_missing_locations(ast.copy_location(out, st))
+
+    def visit_Return(self, n: ast.Return):
+        self.generic_visit(n)
+        return self._hoist_choice(n) or n
+
+    def visit_Expr(self, n: ast.Expr):
+        self.generic_visit(n)
+        return self._hoist_choice(n) or n
+
+    def visit_AnnAssign(self, n: ast.AnnAssign):
+        self.generic_visit(n)
+        return self._hoist_choice(n) or n
+
+    def visit_Assign(self, n: ast.Assign):
+        self.generic_visit(n)
+        h = self._hoist_choice(n)
+        if h is not None:
+            return h
+        # v = F if c else G  (function values)  ->  if c: v = F else: v = G   (a call through v is then split by definition)
+        if len(n.targets) == 1 and isinstance(n.targets[0], ast.Name) and isinstance(n.value, ast.IfExp) and self.N.is_function_ref(n.value):
+            return self._split_choice(n, n.value)
+        return n
+
+    def _split_choice(self, st: ast.Assign, v: ast.IfExp) -> ast.stmt:
+        def arm(x):
+            a = ast.copy_location(ast.Assign(targets=copy.deepcopy(st.targets), value=x, lineno=st.lineno), st)
+            return self._split_choice(a, x) if isinstance(x, ast.IfExp) else a
+        self.N.changed = True
+        return ast.copy_location(ast.If(test=v.test, body=[arm(v.body)], orelse=[arm(v.orelse)]), st)
+
+    def _lazy_alias(self, it: ast.AST) -> Optional[ast.AST]:
+        """`g = helper_generator(x)` bound once and consumed once, as the iterable of a loop / comprehension: the call itself"""
+        N = self.N
+        if not (isinstance(it, ast.Name) and N.is_local(it.id) and N.loads.get(it.id, 0) == 1):
+            return None
+        b = N.single(it.id)
+        if b is None or isinstance(b, ast.FunctionDef) or id(b) in N.drop or not N.generator_helper(b.value):
+            return None
+        N.drop.add(id(b))
+        return copy.deepcopy(b.value)
+
+    def visit_Name(self, n: ast.Name):
+        if isinstance(n.ctx, ast.Load) and self.N.is_local(n.id):
+            c = self.N.local_constant(n.id)
+            if c is not None:
+                self.N.changed = True
+                return ast.copy_location(ast.Constant(value=c.value), n)
+        if isinstance(n.ctx, ast.Load) and not self.N.is_local(n.id) and not self.N.repo.lookup(self.N.mod, n.id):
+            c = self.N.unpacked_constant(n.id)
+            if c is not None:
+                from ..inline import FoldedConstant
+                new = FoldedConstant(value=c.value)
+                new.const_name = n.id
+                self.N.changed = True
+                return ast.copy_location(new, n)
+        return n
+
     def visit_For(self, n: ast.For):
         self.generic_visit(n)
+        tbl = self.N.local_table(n.iter) or self._lazy_alias(n.iter)
+        if tbl is not None:
+            n.iter = _relocate(tbl, n.iter)
+            self.N.changed = True
+            return n
         src = self._source(n.iter)
         if src is None:
             return n
@@ -788,7 +1350,16 @@ class _Pass(ast.NodeTransformer):
         return new
 
     def _fuse(self, n):
-        self.generic_visit(n)
+        self.in_expr_only += 1
+        try:
+            self.generic_visit(n)
+        finally:
+            self.in_expr_only -= 1
+        for gi_, g in enumerate(n.generators):
+            tbl = self.N.local_table(g.iter) or (self._lazy_alias(g.iter) if gi_ == 0 else None)
+            if tbl is not None:
+                g.iter = _relocate(tbl, g.iter)
+                self.N.changed = True
         g0 = n.generators[0]
         src = self._source(g0.iter)
         if src is None or g0.is_async:
@@ -866,6 +1437,32 @@ def record_fields(repo: Repo, modname: str, e: ast.AST, is_local=lambda n: False
     if set(kw) - set(out):
         return None
     return out
+
+
+def record_property(repo: Repo, ctor: ast.AST, attr: str, rec: Dict[str, ast.AST]) -> Optional[ast.AST]:
+    """`R(..).prop` for a property of the record class whose body is one `return <expr>` that reads nothing of self but fields:
+    that expression with the fields replaced by the constructor arguments"""
+    if not (isinstance(ctor, ast.Call) and isinstance(ctor.func, ast.Name)):
+        return None
+    ci = repo.classes.get(ctor.func.id)
+    m = ci.methods.get(attr) if ci is not None else None
+    if m is None or attr not in ci.props or len(m.decorator_list) != 1 or not m.args.args or len(m.args.args) != 1:
+        return None
+    expr = Normaliser._one_expression(m)
+    if expr is None:
+        return None
+    self_name = m.args.args[0].arg
+    if not Normaliser._only_field_reads(expr, self_name, rec):
+        return None
+    if _bound_inside(expr) or any(isinstance(x, ast.Name) and x.id != self_name and isinstance(x.ctx, ast.Load) and x.id not in ("True", "False", "None") for x in ast.walk(expr)):
+        return None         # other names would have to be resolved in the class's module
+
+    class F(ast.NodeTransformer):
+        def visit_Attribute(self, a):
+            if isinstance(a.value, ast.Name) and a.value.id == self_name and a.attr in rec:
+                return copy.deepcopy(rec[a.attr])
+            return self.generic_visit(a)
+    return F().visit(copy.deepcopy(expr))
 
 
 # --------------------------------------------------------------------------------------------------------- values
@@ -1147,6 +1744,8 @@ class View:
             if gl is None:
                 return [Leaf(e, None, _via)]
             return R(gl[0], mod=gl[1], via=_via + (e.id,), vis=_vis | {("g", gl[1], e.id)})
+        if alias_only and any(isinstance(self.g.stmt[d], ast.AugAssign) for d in ds):
+            return [Leaf(e, None, _via)]        # a list extended in place (`xs += [..]`): the name holds the container
         out: List[Leaf] = []
         stop = False
         for d in sorted(ds):
@@ -1195,7 +1794,7 @@ class View:
                     out.append((v, t))
         return out or None
 
-    def const_values(self, e: ast.AST) -> Optional[Set[object]]:
+    def const_values(self, e: ast.AST, _depth: int = 0) -> Optional[Set[object]]:
         """the constants the expression can evaluate to under the valuation (None: some alternative is not a constant)"""
         if isinstance(e, ast.Compare) and len(e.ops) == 1:
             l, r_ = self.const_values(e.left), self.const_values(e.comparators[0])
@@ -1217,9 +1816,20 @@ class View:
             leaves = self.alts(e)
         except (KeyError, RecursionError):
             return None
-        if not leaves or not all(isinstance(x.node, ast.Constant) for x in leaves):
+        if not leaves:
             return None
-        return {x.node.value for x in leaves}
+        out: Set[object] = set()
+        for x in leaves:
+            if isinstance(x.node, ast.Constant):
+                out.add(x.node.value)
+            elif x.node is not e and x.mod is None and isinstance(x.node, (ast.Compare, ast.UnaryOp)) and _depth < 6:
+                sub = self.const_values(x.node, _depth + 1)       # what a property of a record evaluates to
+                if sub is None:
+                    return None
+                out |= sub
+            else:
+                return None
+        return out
 
     def _table_elements(self, target: ast.AST, it: ast.AST, name: str) -> Optional[List[Tuple[ast.AST, Leaf]]]:
         """what the variable `name` of the loop target stands for when the loop runs over a constant table (a list / tuple display,
@@ -1256,6 +1866,12 @@ class View:
             n = leaf.node
             rec = record_fields(self.repo, leaf.mod or self.f.mod.name, n, (lambda nm: self._local_name(nm)) if leaf.mod is None else (lambda nm: False))
             if isinstance(e, ast.Attribute):
+                if rec is not None and e.attr not in rec:
+                    px = record_property(self.repo, n, e.attr, rec)     # a one-expression property over the fields
+                    if px is None:
+                        return None
+                    out.append((px, leaf))
+                    continue
                 if rec is None or e.attr not in rec:
                     return None
                 out.append((rec[e.attr], leaf))
